@@ -869,6 +869,58 @@ func (fv *FuncVerifier) callWrites(env *Env, call *ast.CallExpr, ws *writeSet, d
 			if c != nil && c.Has("pure", 0) {
 				return
 			}
+			if c == nil && fv.inlinable(fi) && depth < 4 {
+				// executed inline at the call site: it writes what its body writes; heap writes through the helper's
+				// receiver / parameters are writes through the corresponding argument expressions of the call
+				sub := &writeSet{vars: map[types.Object]bool{}, heap: map[string]bool{}}
+				cinfo := fi.Pkg.TypesInfo
+				fv.collectWrites(&Env{info: cinfo}, fi.Decl.Body, sub, depth+1)
+				actual := map[types.Object]ast.Expr{}
+				if fi.Decl.Recv != nil {
+					for _, f := range fi.Decl.Recv.List {
+						for _, n := range f.Names {
+							if sel, ok := ast.Unparen(call.Fun).(*ast.SelectorExpr); ok {
+								actual[cinfo.Defs[n]] = sel.X
+							}
+						}
+					}
+				}
+				pi := 0
+				for _, f := range fi.Decl.Type.Params.List {
+					for _, n := range f.Names {
+						if pi < len(call.Args) {
+							actual[cinfo.Defs[n]] = call.Args[pi]
+						}
+						pi++
+					}
+					if len(f.Names) == 0 {
+						pi++
+					}
+				}
+				if sub.heapAll {
+					ws.havocAllWith(sub.presPrefix, sub.presExcept)
+				}
+				if sub.yields {
+					ws.yields = true
+				}
+				for k := range sub.heap {
+					ws.heap[k] = true
+					if sub.heapUnk[k] || len(sub.heapBases[k]) == 0 {
+						ws.addBase(k, nil)
+					}
+					for _, b := range sub.heapBases[k] {
+						var mapped ast.Expr
+						if id, ok := ast.Unparen(b).(*ast.Ident); ok {
+							if a, ok := actual[cinfo.ObjectOf(id)]; ok && !sub.vars[cinfo.ObjectOf(id)] {
+								mapped = a
+							}
+						}
+						ws.addBase(k, mapped)
+					}
+				}
+				fv.mapArgWrites(env, call, ws, depth)
+				return
+			}
 			if c != nil && c.Has("assigns", 0) {
 				for _, cl := range c.Get("assigns", 0, 0) {
 					for _, tgt := range splitTopLevel(cl.Text, ',') {
@@ -1389,9 +1441,40 @@ func (fv *FuncVerifier) execFor(st *State, env *Env, x *ast.ForStmt, label strin
 		nodes = append(nodes, x.Cond)
 	}
 	ws := fv.loopWrites(env, nodes...)
+	// canonical index loop over a slice the body does not change, with an index the body does not assign: the ghosts
+	// it<k> (== i) and xs<k> (== S) of the equivalent range loop, and the facts 0 <= i <= len(S)
+	var idxObj types.Object
+	var idxSeq Term
+	if iobj, sx := canonicalIndexLoop(env.info, x); iobj != nil && lc.ord > 0 {
+		bodyWs := fv.loopWrites(env, x.Body)
+		seqStable := true
+		if id, ok := ast.Unparen(sx).(*ast.Ident); ok {
+			if o := env.info.ObjectOf(id); o == nil || bodyWs.vars[o] {
+				seqStable = false
+			}
+		} else {
+			seqStable = false // a heap path: only identifiers are tracked here
+		}
+		if !bodyWs.vars[iobj] && seqStable {
+			if t := fv.typeOf(env, sx); t != nil {
+				if _, isSl := t.Underlying().(*types.Slice); isSl {
+					idxObj = iobj
+					idxSeq = fv.eval(st, env, sx)
+				}
+			}
+		}
+	}
+	itName, xsName := fmt.Sprintf("it%d", lc.ord), fmt.Sprintf("xs%d", lc.ord)
 	return fv.runLoopR(st, env, lc, label, ws,
 		func(st *State) {},
-		func(st *State) {},
+		func(st *State) {
+			if idxObj != nil {
+				if v, ok := st.vars[idxObj]; ok {
+					lc.names[itName] = v
+					lc.names[xsName] = idxSeq
+				}
+			}
+		},
 		func(st *State) Term {
 			if x.Cond == nil {
 				return True
@@ -1413,7 +1496,14 @@ func (fv *FuncVerifier) execFor(st *State, env *Env, x *ast.ForStmt, label strin
 			}
 			return res
 		},
-		func(st *State) []Term { return nil })
+		func(st *State) []Term {
+			if idxObj != nil {
+				if v, ok := st.vars[idxObj]; ok {
+					return []Term{Le(IntLit(0), v), Le(v, fv.w.SeqLen(idxSeq))}
+				}
+			}
+			return nil
+		})
 }
 
 func (fv *FuncVerifier) execRange(st *State, env *Env, x *ast.RangeStmt, label string) []Outcome {
